@@ -372,6 +372,78 @@ def _path_exists(ex, st, args, dest_ty, func, where):
     return VBool(b)
 
 
+STRLEN = z3.Function("str_byte_len", z3.IntSort(), z3.IntSort())
+BOUNDARY = z3.Function("str_is_char_boundary", z3.IntSort(), z3.IntSort(), z3.BoolSort())
+PREFIX = z3.Function("str_prefix", z3.IntSort(), z3.IntSort(), z3.IntSort())
+
+
+def _abs_str(ex, st, v):
+    v = _deep(ex, st, v)
+    if isinstance(v, VStruct) and v.name == "StrV":
+        return v.f[0].t
+    raise Unsupported("abstract-string operation on %r" % (v,))
+
+
+def _abs_str_len(ex, st, args, dest_ty, func, where):
+    """str::len of an ABSTRACT string: its UTF-8 byte length, an uninterpreted non-negative function of the string"""
+    try:
+        t = _abs_str(ex, st, args[0])
+    except Unsupported:
+        from . import stdmodels
+        return stdmodels._str_len(ex, st, args, dest_ty, func, where)
+    ex.assumes.append(STRLEN(t) >= 0)
+    return VInt(STRLEN(t), "usize")
+
+
+def _abs_str_boundary(ex, st, args, dest_ty, func, where):
+    t = _abs_str(ex, st, args[0])
+    n = args[1].t
+    return VBool(simp(z3.Or(n == 0, n == STRLEN(t), z3.And(n > 0, n < STRLEN(t), BOUNDARY(t, n)))))
+
+
+def _abs_str_index_to(ex, st, args, dest_ty, func, where):
+    """&s[..n] of an ABSTRACT string: panics unless n <= len and n is a char boundary - 0 and len always are, whether any other
+    offset is depends on the string's characters (an uninterpreted predicate: for SOME string it is not)"""
+    try:
+        t = _abs_str(ex, st, args[0])
+    except Unsupported:
+        from . import stdmodels
+        return stdmodels._str_index_range(ex, st, args, dest_ty, func, where)
+    r = _deep(ex, st, args[1])
+    if not (isinstance(r, VStruct) and r.name == "RangeTo"):
+        raise Unsupported("abstract-string index by %r" % (r,))
+    n = r.f[0].t
+    ex.assumes.append(STRLEN(t) >= 0)
+    okb = z3.Or(n == 0, n == STRLEN(t), z3.And(n > 0, n < STRLEN(t), BOUNDARY(t, n)))
+    ex.oblig("panic", where, "byte index is not a char boundary / out of range of the string", z3.And(st.guard, z3.Not(okb)))
+    st.guard = simp(z3.And(st.guard, okb))
+    return VRef("val", val=strv(z3.If(n == STRLEN(t), t, PREFIX(t, n))))
+
+
+def _osstr_len(ex, st, args, dest_ty, func, where):
+    """OsStr::len of an abstract name: an uninterpreted non-negative function of the name (ANY length)"""
+    t = path_term(ex, st, args[0])
+    ex.assumes.append(STRLEN(t) >= 0)
+    return VInt(STRLEN(t), "usize")
+
+
+def _file_set_len(ex, st, args, dest_ty, func, where):
+    f = _file_of(ex, st, args[0])
+    ok = ex.fresh_bool("set_len_ok")
+    record(ex, st, "set_len", path=f.f[0].t, handle=f.f[1].t, ok=ok, len=args[1].t)
+    return io_result(ex, ok)
+
+
+def _file_metadata(ex, st, args, dest_ty, func, where):
+    """File::metadata: what the file system says about the open file - an INPUT (its length is not tied to what this code wrote)"""
+    f = _file_of(ex, st, args[0])
+    ok = ex.fresh_bool("fmetadata_ok")
+    ln = ex.fresh_int("file_len", ty="u64")
+    record(ex, st, "file-metadata", path=f.f[0].t, handle=f.f[1].t, ok=ok, len=ln)
+    mt = VStruct("SystemTime", [VInt(ex.fresh_int("mtime_secs", lo=-(1 << 40), hi=(1 << 40)), "i64"), VInt(ex.fresh_int("mtime_nanos", lo=0, hi=999_999_999), "u32")])
+    return io_result(ex, ok, VStruct("Metadata", [VInt(ln, "u64"), VBool(z3.BoolVal(True)), mt]))
+
+
 def _io_copy_file(ex, st, args, dest_ty, func, where):
     """io::copy(&mut File, &mut W): the file's content is streamed to the writer (recorded)"""
     f = _file_of(ex, st, args[0])
@@ -452,6 +524,13 @@ def install(ex):
     A(r"^tokio::fs::OpenOptions::new$", _oo_new, "tokio OpenOptions::new")
     A(r"^std::fs::OpenOptions::open::<", _file_open("open-options"), "OpenOptions::open (recorded)")
     A(r"^std::fs::File::sync_all$", _file_call("sync_all"), "File::sync_all (recorded)")
+    A(r"^std::fs::File::set_len$", _file_set_len, "File::set_len (recorded)")
+    A(r"^(std::ffi::)?OsStr::len$", _osstr_len, "OsStr::len of an abstract name (uninterpreted length)")
+    A(r"^core::str::<impl str>::len$", _abs_str_len, "str::len of an abstract string (uninterpreted byte length)")
+    A(r"^core::str::<impl str>::is_char_boundary$", _abs_str_boundary, "str::is_char_boundary of an abstract string (uninterpreted predicate; 0 and len are boundaries)")
+    A(r"^<str as (std::ops::)?Index<(std::ops::)?RangeTo<usize>>>::index$|^core::str::traits::<impl (std::ops::)?Index<(std::ops::)?RangeTo<usize>> for str>::index$", _abs_str_index_to,
+      "&str[..n] of an abstract string (panics unless n is 0, len or a char boundary)")
+    A(r"^std::fs::File::metadata$", _file_metadata, "File::metadata (recorded; the reported length is an input)")
     A(r"^<std::fs::File as fs2::FileExt>::lock_exclusive$", _file_call("lock"), "fs2 lock_exclusive (recorded)")
     A(r"^<std::fs::File as fs2::FileExt>::unlock$", _file_call("unlock"), "fs2 unlock (recorded)")
     A(r"^<std::fs::File as (std::io::)?Write>::flush$", _file_call("flush-file"), "File::flush (recorded; NOT a sync)")
